@@ -152,6 +152,9 @@ func propC12(c *Ctx) string {
 	c12SetupState(c, v, "C12")
 	// the will is published through Backend.Publish with a nil ack: its QoS, not the ack, must select the queue
 	c08Offline(c, v)
+	// keep-alive expiry and malformed packets end the connection through Receive's error path: it must close the
+	// carrier itself (not through Close, which waits for a stalled sender) or cleanup never runs
+	c19ErrClose(c)
 	c.NotDecide("that every termination cause (keep-alive expiry, shutdown, takeover, malformed packet) reaches tomb death — liveness",
 		"the content of the published will at runtime (handed on unchanged: C11/WILL)", "exactly-once under concurrent Close/die races beyond the single reaper argument")
 	c.Assume("tomb.v2: Wait returns only after all tracked goroutines returned", "instance-insensitive field keys")
@@ -614,6 +617,12 @@ func propC13(c *Ctx) string {
 	// in-flight and queued messages pass to the newcomer: nothing dequeued may be dropped before it is stored
 	c08StoreSend(c, v, "C13")
 	c12Once(c, v, "C13")
+	// the in-flight state passes to the newcomer only if resuming leaves the stored session (stores, id counter) alone
+	c08Setup(c, v)
+	c13SessionSet(c, v, "C13")
+	// a connection taken over before its CONNACK completed still has its will published: the will is stored before
+	// the CONNACK is sent
+	c12Writers(c, v)
 	c12SetupState(c, v, "C13")
 	// CONNACK after Setup
 	rc := c.Rule("C13/CONNACK", "TRACE", "the accepted CONNACK is sent only after Backend.Setup returned successfully (the old connection is fully terminated by then)", 1)
@@ -1031,6 +1040,7 @@ func propC16(c *Ctx) string {
 	}
 	rt.Check(conn.Name+":resend charges the window", okR && nR > 0, conn.Decl.Pos(), len(cin.Traces), "every retransmitted packet must consume a window slot (non-blocking) before it is sent", c.witness(w)...)
 	c16Cap(c, v, conn)
+	c16Settings(c, v, "C16")
 	c.NotDecide("eventual delivery while acknowledgements flow (liveness)", "slot accounting over long runs and across reconnects beyond the take/return pairing", "the client's own behaviour")
 	c.Assume("one dequeuer goroutine per client (C15/SINGLE)", "channel semantics of Go")
 	return c16Explanation
@@ -1873,4 +1883,338 @@ func c16AckReturn(c *Ctx, v *vocab, r *Rule, ackH, compH *FuncInfo) {
 		}
 		r.Check(hnd.Name+":one non-blocking return per completed handshake", ok && n > 0, hnd.Decl.Pos(), len(in.Traces), "a completed PUBACK/PUBCOMP must give exactly one window slot back, without blocking", c.witness(w)...)
 	}
+}
+
+// ------------------------------------------------------------------ ACKCAP / CLOSEALL / SETTINGS (round 3)
+
+// c14AckCap: ack closures run inside Backend.Publish/Subscribe while the backend's global mutex is held; they must
+// never wait. An acknowledgement is queued only by the holder of a publish or subscribe token, so the queue never
+// fills iff cap(ackQueue) ≥ cap(publishTokens)+cap(subscribeTokens). Decided on the connect handler: the queue is
+// made with the sum of the two size expressions the token channels are made with, and none of the operands is
+// written between the first and the last of the three makes (the defaults are applied before all of them).
+func c14AckCap(c *Ctx, v *vocab, prop string) {
+	r := c.Rule(prop+"/ACKCAP", "TRACE", "connect handler: ackQueue is made with capacity publishTokens-size + subscribeTokens-size, and the size operands are not written between the three makes: a queued acknowledgement never waits for room (ack runs under the backend's global mutex)", 1)
+	fi := c.connectHandler(r)
+	if fi == nil {
+		return
+	}
+	ackQ := c.P.Field("broker", "Client", "ackQueue")
+	pubT := c.P.Field("broker", "Client", "publishTokens")
+	subT := c.P.Field("broker", "Client", "subscribeTokens")
+	if ackQ == nil || pubT == nil || subT == nil {
+		r.Undecided(fi.Name+":ackQueue capacity", fi.Decl.Pos(), "fields ackQueue/publishTokens/subscribeTokens not found")
+		return
+	}
+	h := &Interp{P: c.P, Info: fi.Pkg.TypesInfo}
+	in := c.traces(fi)
+	ok, why, n := true, "", 0
+	var wit *Trace
+	fail := func(t *Trace, msg string) {
+		if ok {
+			ok, why, wit = false, msg, t
+		}
+	}
+	sizeOf := func(e *Event) ast.Expr {
+		call, isC := ast.Unparen(e.RHS).(*ast.CallExpr)
+		if !isC || len(call.Args) != 2 {
+			return nil
+		}
+		if id, isI := ast.Unparen(call.Fun).(*ast.Ident); !isI || id.Name != "make" {
+			return nil
+		}
+		return ast.Unparen(call.Args[1])
+	}
+	for _, t := range in.Traces {
+		pos := map[*types.Var]int{}
+		size := map[*types.Var]ast.Expr{}
+		for i, e := range t.Ev {
+			if e.Kind != EvAssign {
+				continue
+			}
+			for _, f := range []*types.Var{ackQ, pubT, subT} {
+				if e.LObj == types.Object(f) {
+					if s := sizeOf(e); s != nil {
+						pos[f], size[f] = i, s
+					} else {
+						fail(t, f.Name()+" is not made with an explicit capacity")
+					}
+				}
+			}
+		}
+		if len(pos) == 0 {
+			continue
+		}
+		if len(pos) != 3 {
+			fail(t, "a path creates only some of ackQueue, publishTokens, subscribeTokens")
+			continue
+		}
+		n++
+		sum, isSum := size[ackQ].(*ast.BinaryExpr)
+		a, b := h.objOf(size[pubT]), h.objOf(size[subT])
+		if !isSum || sum.Op != token.ADD || a == nil || b == nil {
+			fail(t, "the capacity of ackQueue is not the sum of the two token counts")
+			continue
+		}
+		x, y := h.objOf(sum.X), h.objOf(sum.Y)
+		if !((x == a && y == b) || (x == b && y == a)) {
+			fail(t, "the capacity of ackQueue is "+c.P.exprStr(size[ackQ])+", the tokens handed out are "+c.P.exprStr(size[pubT])+" and "+c.P.exprStr(size[subT]))
+			continue
+		}
+		lo, hi := len(t.Ev), -1
+		for _, p := range pos {
+			if p < lo {
+				lo = p
+			}
+			if p > hi {
+				hi = p
+			}
+		}
+		for _, e := range t.Ev[lo:hi] {
+			if e.Kind == EvAssign && (e.LObj == a || e.LObj == b) {
+				fail(t, "the token count "+e.LObj.Name()+" is written between the creation of the acknowledgement queue and of the token channels: their sizes disagree")
+			}
+		}
+	}
+	r.Check(fi.Name+":cap(ackQueue) = publish tokens + subscribe tokens", ok && n > 0, fi.Decl.Pos(), len(in.Traces), why, c.witness(wit)...)
+}
+
+// c14CloseAll: shutdown reaches every connection the backend set up. Setup leaves every accepted client as the
+// activeClient of a session kept in temporarySessions or storedSessions (anonymous clients only in the former), so
+// Close has to walk both maps and close each session's active client.
+func c14CloseAll(c *Ctx, v *vocab, prop string) {
+	r := c.Rule(prop+"/CLOSEALL", "TRACE", "every success path of MemoryBackend.Setup makes the client the activeClient of its session and registers it in a map (temporarySessions, storedSessions, activeClients) that MemoryBackend.Close walks closing the clients it finds: shutdown reaches every accepted connection, anonymous ones included", 3)
+	_, _, _, _, _, tempS, storedS, _ := backendVocab(c)
+	fi := c.mustFunc(r, "broker.(*MemoryBackend).Close")
+	active := c.P.Field("broker", "memorySession", "activeClient")
+	activeC := c.P.Field("broker", "MemoryBackend", "activeClients")
+	closeM := c.P.Method("broker", "Client", "Close")
+	if fi == nil || tempS == nil || storedS == nil || active == nil || closeM == nil {
+		r.Undecided("broker.(*MemoryBackend).Close:vocabulary", 0, "session maps, activeClient or Client.Close not found")
+		return
+	}
+	maps := []*types.Var{tempS, storedS}
+	if activeC != nil {
+		maps = append(maps, activeC)
+	}
+	isMap := func(o types.Object) *types.Var {
+		for _, m := range maps {
+			if o == types.Object(m) {
+				return m
+			}
+		}
+		return nil
+	}
+	// the maps Close walks with a Client.Close call in the loop body
+	h := &Interp{P: c.P, Info: fi.Pkg.TypesInfo}
+	walked := map[*types.Var]bool{}
+	ast.Inspect(fi.Decl.Body, func(n ast.Node) bool {
+		rs, ok := n.(*ast.RangeStmt)
+		if !ok {
+			return true
+		}
+		m := isMap(h.objOf(rs.X))
+		if m == nil {
+			return true
+		}
+		ast.Inspect(rs.Body, func(k ast.Node) bool {
+			if call, ok := k.(*ast.CallExpr); ok {
+				if f, _ := typeutilCallee(fi.Pkg.TypesInfo, call).(*types.Func); f == closeM {
+					walked[m] = true
+				}
+			}
+			return true
+		})
+		return true
+	})
+	var wl []string
+	for _, m := range maps {
+		if walked[m] {
+			wl = append(wl, m.Name())
+		}
+	}
+	sf := c.mustFunc(r, "broker.(*MemoryBackend).Setup")
+	if sf == nil {
+		return
+	}
+	sh := &Interp{P: c.P, Info: sf.Pkg.TypesInfo}
+	in := c.traces(sf)
+	type res struct {
+		ok   bool
+		n    int
+		pos  token.Pos
+		wit  *Trace
+		note string
+	}
+	groups := map[string]*res{}
+	var order []string
+	for _, t := range in.Traces {
+		if t.Exit != ExitReturn || len(t.RVals) != 3 || t.retErr() != -1 {
+			continue
+		}
+		regs := map[*types.Var]bool{}
+		owner := false
+		for _, e := range t.Ev {
+			if e.Kind != EvAssign {
+				continue
+			}
+			if ix, isIx := ast.Unparen(e.LHS).(*ast.IndexExpr); isIx {
+				if m := isMap(sh.objOf(ix.X)); m != nil {
+					regs[m] = true
+				}
+			}
+			if e.RHS != nil {
+				if ix, isIx := ast.Unparen(e.RHS).(*ast.IndexExpr); isIx && sh.objOf(ix.X) == types.Object(storedS) && t.okOutcome(e) >= 0 {
+					// the returned session was looked up in storedSessions (reuse)
+					if len(t.Results) == 3 && sh.objOf(t.Results[0]) != nil && sh.objOf(t.Results[0]) == e.LObj {
+						regs[storedS] = true
+					}
+				}
+			}
+			if e.LObj == types.Object(active) {
+				owner = true
+			}
+		}
+		var names []string
+		covered := false
+		for _, m := range maps {
+			if regs[m] {
+				names = append(names, m.Name())
+				if walked[m] {
+					covered = true
+				}
+			}
+		}
+		key := sf.Name + ":client registered in {" + strings.Join(names, ",") + "}"
+		g := groups[key]
+		if g == nil {
+			g = &res{ok: true, pos: sf.Decl.Pos()}
+			groups[key] = g
+			order = append(order, key)
+		}
+		g.n++
+		if (!covered || !owner) && g.ok {
+			g.ok, g.wit = false, t
+			if !owner {
+				g.note = "the accepted client is not made the activeClient of its session"
+			} else {
+				g.note = "MemoryBackend.Close walks {" + strings.Join(wl, ",") + "} only: a client registered this way is not closed on shutdown (its goroutines, its Terminate call and its closed signal never happen)"
+			}
+		}
+	}
+	sort.Strings(order)
+	for _, k := range order {
+		g := groups[k]
+		r.Check(k, g.ok, g.pos, g.n, g.note, c.witness(g.wit)...)
+	}
+	if len(order) == 0 {
+		r.Undecided(sf.Name+":success paths", sf.Decl.Pos(), "no success path found")
+	}
+}
+
+// c16Settings: the window (InflightMessages), the request tokens and the timeouts configured on the backend reach
+// every accepted connection — also one that resumes a stored session: every success path of MemoryBackend.Setup
+// assigns each client setting from the backend's field of the same meaning.
+func c16Settings(c *Ctx, v *vocab, prop string) {
+	r := c.Rule(prop+"/SETTINGS", "TRACE", "every success path of MemoryBackend.Setup assigns client.MaximumKeepAlive, ParallelPublishes, ParallelSubscribes, InflightMessages and TokenTimeout from the backend's Client* settings (fresh, clean and resumed sessions alike)", 1)
+	sf := c.mustFunc(r, "broker.(*MemoryBackend).Setup")
+	if sf == nil {
+		return
+	}
+	type pair struct{ dst, src *types.Var }
+	var pairs []pair
+	for _, n := range []string{"MaximumKeepAlive", "ParallelPublishes", "ParallelSubscribes", "InflightMessages", "TokenTimeout"} {
+		d, s := c.P.Field("broker", "Client", n), c.P.Field("broker", "MemoryBackend", "Client"+n)
+		if d == nil || s == nil {
+			r.Undecided(sf.Name+":settings vocabulary", sf.Decl.Pos(), "field Client."+n+" or MemoryBackend.Client"+n+" not found")
+			return
+		}
+		pairs = append(pairs, pair{d, s})
+	}
+	sh := &Interp{P: c.P, Info: sf.Pkg.TypesInfo}
+	in := c.traces(sf)
+	ok, why, n := true, "", 0
+	var wit *Trace
+	for _, t := range in.Traces {
+		if t.Exit != ExitReturn || len(t.RVals) != 3 || t.retErr() != -1 {
+			continue
+		}
+		n++
+		for _, p := range pairs {
+			set := false
+			for _, e := range t.Ev {
+				if e.Kind == EvAssign && e.LObj == types.Object(p.dst) && (e.RObj == types.Object(p.src) || sh.objOf(e.RHS) == types.Object(p.src)) {
+					set = true
+				}
+			}
+			if !set && ok {
+				ok, wit = false, t
+				why = "a path hands out a session without applying " + p.src.Name() + " to the connection: it runs with the built-in defaults (window 10, timeout 30 s) instead of the configured limits"
+			}
+		}
+	}
+	r.Check(sf.Name+":client settings applied on every success path", ok && n > 0, sf.Decl.Pos(), len(in.Traces), why, c.witness(wit)...)
+}
+
+// c13SessionSet: MemoryBackend.Terminate (and every other Backend method) finds the connection's session through
+// client.Session(). From the moment Setup returned, the backend regards this connection as the owner of the
+// session, so the connect handler must record the session on the client before anything that can fail or be
+// interrupted (sending the CONNACK, Restore, the resend loop): a connection that dies in between would otherwise be
+// terminated without its session, and the backend would keep a dead owner.
+func c13SessionSet(c *Ctx, v *vocab, prop string) {
+	r := c.Rule(prop+"/SESSIONSET", "TRACE", "connect handler: after Backend.Setup→ok the session is stored in Client.session before any send, any further Backend/Session call and any return: Terminate always finds the session of a connection the backend has registered", 1)
+	fi := c.connectHandler(r)
+	if fi == nil {
+		return
+	}
+	sess := c.P.Field("broker", "Client", "session")
+	if sess == nil {
+		r.Undecided(fi.Name+":session field", fi.Decl.Pos(), "Client.session not found")
+		return
+	}
+	in := c.traces(fi)
+	ok, why, n := true, "", 0
+	var wit *Trace
+	for _, t := range in.Traces {
+		s := t.first(callTo(v.bkSetup))
+		if s < 0 || t.errOutcome(t.Ev[s]) != -1 {
+			continue
+		}
+		// the variable that holds Setup's session; a path on which it is nil has nothing to record
+		var sv types.Object
+		for _, e := range t.Ev[s+1:] {
+			if e.Kind == EvAssign && ast.Unparen(e.RHS) == ast.Expr(t.Ev[s].Call) && sv == nil {
+				sv = e.LObj
+			}
+		}
+		isNil := false
+		for _, e := range t.Ev[s+1:] {
+			if (e.Kind == EvCond || e.Kind == EvOutcome) && e.Var != nil && e.Var == sv && e.Nilness == -1 {
+				isNil = true
+			}
+		}
+		if isNil {
+			continue
+		}
+		n++
+		set := false
+		for _, e := range t.Ev[s+1:] {
+			if e.Kind == EvAssign && e.LObj == types.Object(sess) {
+				set = true
+				break
+			}
+			if e.Kind == EvCall {
+				if f, isF := e.Callee.(*types.Func); isF && c.P.ByObj[f] != nil || callTo(v.bSend, v.connSend, v.bkRestore, v.bsAll, v.bsSave, v.bsLookup, v.bsDelete)(e) {
+					if ok {
+						ok, wit = false, t
+						why = "a call (" + c.P.exprStr(e.Call.Fun) + ") happens after Setup succeeded and before the session is recorded on the client"
+					}
+					break
+				}
+			}
+		}
+		if !set && ok {
+			ok, wit, why = false, t, "a path leaves the handler after Setup succeeded without recording the session on the client"
+		}
+	}
+	r.Check(fi.Name+":session recorded right after Setup→ok", ok && n > 0, fi.Decl.Pos(), len(in.Traces), why, c.witness(wit)...)
 }
